@@ -214,7 +214,10 @@ def _concrete_comprehension(eng, n, fr, kind, first):
     """models.comprehension evaluates the iterable itself; here it has been evaluated already"""
     gens = n.generators
     sub = Frame(parent=fr, globs=fr.globs, func=fr.func)
-    items0 = models.iterate_concrete(eng, first)
+    try:
+        items0 = models.iterate_concrete(eng, first)
+    except Unsupported:
+        return npmodels.symbolic_comprehension(eng, n, fr, kind, first)
     out = []
     for x in items0:
         eng.assign(gens[0].target, x, sub)
@@ -329,7 +332,9 @@ class SRows:
             j %= self.inner[0]
             used(eng, "basic-slice-is-view")
             v = SArr(self.cells[j], self.n, self.kind, name=f"col{j}", dtype=self.dtype)
-            v.uid, v.frozen, v.view_of_rows = self.uid, self.frozen, (self, j)  # a view: same allocation as the matrix
+            # a view: same allocation as the matrix.  A store through it would have to reach the matrix; that is not modelled,
+            # so the view is frozen: any store is reported (frame-write) instead of being lost
+            v.uid, v.frozen, v.view_of_rows = self.uid, True, (self, j)
             return v
         raise Unsupported("index form on an array with a symbolic number of rows")
 
@@ -390,6 +395,8 @@ def _wrap_stock(fn, mine):
     stock = npmodels.lookup_model(fn)
 
     def model(eng, args, kwargs):
+        if not _mine(eng):  # contracts/C09.py is imported by other contract modules for its helpers: their proofs keep the stock models
+            return stock(eng, args, kwargs)
         return mine(eng, args, kwargs, stock)
 
     return model
